@@ -13,7 +13,9 @@ for l in open(os.path.join(root, "RESULTS.txt")):
     mo = re.search(r"monitors of other properties that fired during this run: (.*?)\)", rest)
     if mo:
         other = mo.group(1)
-    res.setdefault(name, []).append((chk, det, sigs.strip(","), other))
+    lst = [x for x in res.get(name, []) if x[0] != chk]  # a later run of the same check replaces an earlier one
+    lst.append((chk, det, sigs.strip(","), other))
+    res[name] = lst
 rows = []
 for name in sorted(os.listdir(root)):
     mp = os.path.join(root, name, "meta.json")
